@@ -1,78 +1,114 @@
-"""U9 cdc - clock-domain decision kernel (C16). Back end: Kani/CBMC, complete (loop-free, symbolic usize ids)."""
+"""U9 cdc - clock-domain decision kernel (C16). Back end: Kani/CBMC, complete (loop-free, symbolic usize ids / u32 positions);
+bounded stand-ins (labelled) for the number of enclosing statement conditions and for the length of the unsafe-block table."""
 import re
 from vp.core import KaniJob
 from vp.kani_run import Harness
 
 SYM = "crates/analyzer/src/symbol.rs"
 CHK = "crates/analyzer/src/conv/checker/clock_domain.rs"
+UTL = "crates/analyzer/src/conv/utils.rs"
 UNS = "crates/analyzer/src/unsafe.rs"
+RTB = "crates/analyzer/src/range_table.rs"
+PRT = "crates/parser/src/resource_table.rs"
+PTX = "crates/parser/src/text_table.rs"
+PTK = "crates/parser/src/veryl_token.rs"
+PTR = "crates/parser/src/token_range.rs"
 
 # E1: the `use` lines of the real files are dropped; these fixed preludes bind the same names to the extracted items
 # and to the harness stand-ins (units/cdc/harness.rs::standin).
-SYMBOL_USE = ""
-CHECKER_USE = """use crate::standin::{unsafe_table, AnalyzerError, Comptime, Context, Token};
+CHECKER_USE = """use crate::parser_types::{Token, TokenRange};
+use crate::standin::{self as ir, unsafe_table, AnalyzerError, Comptime, Context};
+use crate::symbol::{Affiliation, ClockDomain};
 use crate::unsafe_kind::Unsafe;
+"""
+RANGE_TABLE_USE = """use crate::HashMap;
+use crate::parser_types::{PathId, Token, TokenRange, TokenSource};
+use std::fmt;
 """
 
 TRUSTED = {
     r"kani::assume\(": "harness preconditions only: variant tag < 4 when drawing a symbolic ClockDomain; the hypothesis of each stated implication "
-                       "(operands passed the check / domains differ / not inside the cdc block) - see contract_clauses",
+                       "(operands passed the check / domains differ / not inside the cdc block / destination annotated); ranges well-formed (beg <= end) - see contract_clauses",
 }
 
 # not pattern-scanned (no assume/stub involved) but part of the trusted base: stated in evidence via res.trusted
 STANDINS = [
-    "harness stand-in: records calls only: standin::Context (insert_error counts calls and keeps the last error; real: conv::Context::insert_error, which also merges MultipleAssignment errors)",
-    "harness stand-in: records calls only: standin::AnalyzerError::mismatch_clock_domain (remembers its four arguments; real: builds a miette diagnostic)",
-    "harness stand-in: records calls only: standin::Comptime (fields clock_domain, token - the only two check_clock_domain reads)",
-    "harness stand-in: records calls only: standin::Token / standin::TokenRange (identity + the unsafe-table answer for that token)",
-    "harness stand-in: records calls only: standin::unsafe_table::contains (returns the symbolic bool carried by the token asked about, counts calls; real: thread-local RangeTable<Unsafe> lookup)",
+    "harness stand-in: records calls only: standin::Context (insert_error keeps an ordered log; is_affiliated compares with ONE innermost affiliation (real: affiliation.last()); "
+    "current_clock as in the real struct; condition_domains is standin::CondList (<= 2 entries, no heap; real: Vec<Comptime>); real insert_error also merges MultipleAssignment errors)",
+    "harness stand-in: records calls only: standin::VarPaths for Context::var_paths (real: HashMap<VarPath,(VarId,Comptime)>; one entry, get_mut counted)",
+    "harness stand-in: records calls only: standin::AnalyzerError::{mismatch_clock_domain, invalid_clock_assignment} (remember their arguments; real: build miette diagnostics)",
+    "harness stand-in: records calls only: standin::Comptime (fields type, clock_domain, token), standin::Type (is_clock/is_reset answer two symbolic bools; to_string), "
+    "standin::AssignDestination (path, comptime, token), standin::VarPath/VarId (opaque ids)",
+    "harness stand-in: records calls only: standin::unsafe_table::contains in the decision harnesses (an independent symbolic bool per token identity, calls counted, "
+    "asking about a token other than the statement token is recorded); the real lookup RangeTable::{insert,begin,get,contains} + TokenRange::include is under contract separately; "
+    "not covered: the thread_local/RefCell wrapper of unsafe_table.rs and that unsafe_table::begin/end are called with the block's first/last token",
     "harness stand-in: records calls only: ClockDomain::to_string -> standin::DomText (real: Display impl doing a symbol_table lookup; only feeds the message text)",
-    "module crate::r#unsafe is emitted as crate::unsafe_kind (name only; enum Unsafe is the extracted text)",
-    "not covered: that every assignment/connection site calls check_clock_domain, domain propagation through conv/ir expression code, what RangeTable::contains answers",
+    "module crate::r#unsafe is emitted as crate::unsafe_kind; parser items are emitted in crate::parser_types (names only; the items are the extracted text)",
+    "not covered: that every assignment/connection site calls check_clock_domain / check_assign_clock_domain, domain propagation through conv/ir expression code",
 ]
 
 
 def expand(text):
+    text = re.sub(r"#\[vp_bounded\]", "#[cfg_attr(kani, kani::proof)]\n    #[cfg_attr(kani, kani::unwind(10))]", text)
     return text.replace("#[vp_proof]", "#[cfg_attr(kani, kani::proof)]")
 
 
+BOUNDS = {
+    "assign_contract_one_condition": "condition_domains.len() == 1",
+    "assign_contract_two_conditions": "condition_domains.len() == 2",
+    "range_table_contains_iff_inside_some_range": "<= 2 recorded ranges, <= 1 open block, file ids from {3,5} (ranges) / {3,5,9} (token)",
+}
+
+
 def build(ctx, res):
-    sym, chk, uns = ctx.src(SYM), ctx.src(CHK), ctx.src(UNS)
+    sym, chk, utl, uns, rtb = ctx.src(SYM), ctx.src(CHK), ctx.src(UTL), ctx.src(UNS), ctx.src(RTB)
+    prt, ptx, ptk, ptr = ctx.src(PRT), ctx.src(PTX), ctx.src(PTK), ctx.src(PTR)
     items = []
 
-    def take(it):
+    def take(it, strip=True):
+        if strip and it.kind in ("struct", "enum"):
+            it.strip_derive("Serialize", "Deserialize")
         items.append(it)
         return it.render()
 
-    sid = sym.item("struct", "SymbolId")
-    sid.strip_derive("Serialize", "Deserialize")
-    cd = sym.item("enum", "ClockDomain")
-    cd.strip_derive("Serialize", "Deserialize")
-    un = uns.item("enum", "Unsafe")
-    un.strip_derive("Serialize", "Deserialize")
-    fns = [sym.item("fn", f, impl="ClockDomain") for f in ("domain_id", "compatible", "merge")]
-    chkf = chk.item("fn", "check_clock_domain")
+    def no_default(it):
+        # Token's Default impl goes through the thread-local token-id counter (not extracted); nothing here needs TokenRange::default()
+        it.strip_derive("Serialize", "Deserialize", "Default")
+        return it
 
-    lib = "\n".join([
-        "pub mod symbol {", SYMBOL_USE, take(sid), take(cd), "impl ClockDomain {"] + [take(f) for f in fns] + ["}", "}",
-        "pub mod unsafe_kind {", take(un), "}",
-        "pub mod checker {", CHECKER_USE, take(chkf), "}",
-        expand(ctx.unit_file("cdc", "harness.rs")),
-    ]) + "\n"
+    parser_types = ["pub mod parser_types {",
+                    take(prt.item("struct", "PathId")), take(prt.item("struct", "StrId")), take(prt.item("struct", "TokenId")),
+                    take(ptx.item("struct", "TextId")),
+                    take(ptk.item("enum", "TokenSource")), take(ptk.item("impl", "PartialEq<PathId> for TokenSource")),
+                    take(ptk.item("struct", "Token")),
+                    take(no_default(ptr.item("struct", "TokenRange")), strip=False), "impl TokenRange {", take(ptr.item("fn", "include", impl="TokenRange")), "}",
+                    "}"]
+    symbol = ["pub mod symbol {", take(sym.item("struct", "SymbolId")), take(sym.item("enum", "ClockDomain")), "impl ClockDomain {"] + \
+             [take(sym.item("fn", f, impl="ClockDomain")) for f in ("domain_id", "compatible", "merge")] + ["}", take(sym.item("enum", "Affiliation")), "}"]
+    unsafe_kind = ["pub mod unsafe_kind {", "use std::fmt;", take(uns.item("enum", "Unsafe")), take(uns.item("impl", "fmt::Display for Unsafe")), "}"]
+    range_table = ["pub mod range_table {", RANGE_TABLE_USE, take(rtb.item("struct", "RangeTable")), take(rtb.item("impl", "Default for RangeTable<T>")),
+                   "impl<T> RangeTable<T>\nwhere\n    T: Clone + Eq + std::fmt::Display,\n{"] + \
+                  [take(rtb.item("fn", f, impl="RangeTable<T>")) for f in ("insert", "begin", "end", "get", "contains")] + ["}", "}"]
+    checker = ["pub mod checker {", CHECKER_USE, take(chk.item("fn", "check_clock_domain")), take(utl.item("fn", "check_assign_clock_domain")), "}"]
 
     raw = ctx.unit_file("cdc", "harness.rs")
+    lib = "\n".join(["pub type HashMap<K, V> = fxhash::FxHashMap<K, V>;"] + parser_types + symbol + unsafe_kind + range_table + checker + [expand(raw)]) + "\n"
+
     hs = []
-    for n in re.findall(r"#\[vp_proof\]\s*pub fn (\w+)", raw):
-        fn = "check_clock_domain" if n.startswith(("check_", "canary_check", "explicit_inferred_alike_in_check")) else \
+    for kind, n in re.findall(r"#\[vp_(proof|bounded)\]\s*pub fn (\w+)", raw):
+        fn = "check_assign_clock_domain" if "assign" in n else \
+             "check_clock_domain" if n.startswith(("check_", "canary_check", "explicit_inferred_alike_in_check")) else \
+             "TokenRange::include" if "include" in n else "RangeTable::contains" if "range_table" in n else \
              "ClockDomain::merge" if "merge" in n else "ClockDomain::compatible"
-        hs.append(Harness("harness::" + n, kind="canary" if n.startswith("canary_") else "proof", fn=fn))
+        k = "canary" if n.startswith("canary_") else ("bounded" if kind == "bounded" else "proof")
+        hs.append(Harness("harness::" + n, kind=k, fn=fn, bound=BOUNDS.get(n)))
     for t in STANDINS:
         ent = "cdc: " + t
         if ent not in res.trusted:
             res.trusted.append(ent)
     res.clauses.update({
         "model": "Dom = Less (ClockDomain::None) | Anon (Implicit, the unnamed default domain) | Named(id) (Explicit(id) and Inferred(id) alike); "
-                 "may_move(a,b) := a==Less || b==Less || a==b",
+                 "may_move(a,b) := a==Less || b==Less || a==b; pos_le = lexicographic (line, column) order",
         "ClockDomain::compatible": "ensures r == may_move(model(self), model(x)); == (None on a side || both ids equal || neither has an id); symmetric; reflexive; "
                                    "Explicit(i)/Inferred(i) interchangeable on either side",
         "ClockDomain::domain_id": "ensures r == Some(id) for Named(id), None otherwise",
@@ -81,7 +117,16 @@ def build(ctx, res):
                               "compatible(a,b) ==> merge(a,b) compatible with a and b, and any c incompatible with a or b is incompatible with merge(a,b)",
         "check_clock_domain": "ensures exactly one insert_error(mismatch_clock_domain(lhs.domain, rhs.domain, lhs.token, rhs.token)) <=> !may_move(lhs,rhs) && "
                               "!unsafe_table::contains(token, Cdc); zero errors otherwise; the unsafe table is asked exactly once and about `token`",
+        "check_assign_clock_domain": "ensures dst.comptime.clock_domain and the var_paths entry of dst.path become Inferred(id) iff the destination was Implicit and id exists "
+                                     "(always_ff: the current clock's id, else the source's id); nothing else of dst / var_paths changes; Explicit/Inferred/None destinations are never modified; "
+                                     "error log == [invalid_clock_assignment if clock/reset typed in always_ff] ++ [mismatch(dst', x) for x in rhs, always_ff clock, each condition "
+                                     "if !may_move(dst', x) && !cdc-block(token.beg)] in that order, lhs token = dst.token; one table lookup per check, about token.beg",
+        "TokenRange::include": "requires (beg.line,beg.column) <= (end.line,end.column); ensures r == (beg.source is File/Generated of `path` && beg <= (line,column) <= end lexicographically)",
+        "RangeTable::contains": "bounded (<= 2 ranges inserted with the real insert, <= 1 open block): contains(token, v) <=> token is a File token lying in some recorded range "
+                                "of its file (closed interval) || an open block carries v",
     })
     res.samples.append({"obligation": "kani:cdc:check_error_iff_crossing_outside_unsafe_cdc",
                         "contract": "n_errors == (if !may_move(model(lhs), model(rhs)) && !token.in_unsafe_cdc {1} else {0}); last error == (lhs, rhs)"})
-    return [KaniJob("cdc", lib, hs, deps={}, items=items, trusted=TRUSTED, jobs=4, timeout=900, per_harness_timeout=300)]
+    res.samples.append({"obligation": "kani:cdc:include_is_closed_interval_in_file",
+                        "contract": "include(path,line,column) == (in_file(beg.source,path) && pos_le(beg,(line,column)) && pos_le((line,column),end)) for beg <= end"})
+    return [KaniJob("cdc", lib, hs, deps={"fxhash": '"0.2.1"'}, items=items, trusted=TRUSTED, jobs=4, timeout=1500, per_harness_timeout=400)]
